@@ -11,7 +11,7 @@ import itertools
 from hypothesis import strategies as st
 
 from .. import solverio, strategies
-from ..common import Result, Violation
+from ..common import HarnessError, Result, Violation
 from ..strategies import pct
 from . import _lp
 
@@ -38,11 +38,34 @@ def budget(tier):
 
 @st.composite
 def _cases(draw, tier):
+    large = pct(draw) < 8
     mode = 'cbc' if pct(draw) < 7 else ('both' if tier == 'thorough' and pct(draw) < 6 else 'eb')
     salt = draw(strategies.salts)
     cls = draw(st.sampled_from(['generic', 'shared_tight', 'shared_tight', 'heavy_ties',
                                 'zero_capacity', 'lower_quotas', 'two_agent', 'two_agent',
                                 'more_lecturers']))
+    if (not large) and pct(draw) < 12:
+        # a tiny instance embedded under sparse two-digit ids; real CBC on the big file, the
+        # stable set is enumerated on the tiny one
+        tiny = draw(strategies.instances(strategies.SIZES['tiny'], two_sided=True, cls=cls
+                                         if cls != 'more_lecturers' else 'generic'))
+        first = draw(st.sampled_from([None, 'maxsize', 'maxsize', 'minsize', 'mincost', 'gre']))
+        opts = draw(strategies.option_sets(tiny, min_crit=1 if first else 0,
+                                           max_crit=1 if first else 0,
+                                           names=[first] if first else None,
+                                           twopl=True, stab=True, pc=False))
+        return {'inst': tiny, 'opts': opts, 'choices': [], 'mode': 'cbc', 'salt': salt,
+                'maps': draw(strategies.id_maps(tiny))}
+    if large:
+        # two-digit ids, real CBC, no enumeration: the printed matching must be valid and
+        # unblocked and stability_correct must say so
+        inst = draw(strategies.instances(_lp.LARGE[tier], two_sided=True,
+                                         cls=draw(st.sampled_from(['generic', 'two_agent',
+                                                                   'shared_tight']))))
+        opts = draw(strategies.option_sets(inst, min_crit=1, max_crit=2, twopl=True, stab=True,
+                                           names=['maxsize', 'minsize', 'mincost', 'gre']))
+        return {'inst': inst, 'opts': opts, 'choices': [], 'mode': 'cbc', 'salt': salt,
+                'large': True}
     inst = draw(strategies.instances(strategies.SIZES[tier], two_sided=True, cls=cls))
     first = draw(st.sampled_from([None, None, 'maxsize', 'minsize']))
     if first:
@@ -51,7 +74,11 @@ def _cases(draw, tier):
     else:
         opts = draw(strategies.option_sets(inst, min_crit=0, max_crit=3, twopl=True, stab=True))
     choices = draw(strategies.choice_lists) if mode != 'cbc' else []
-    return {'inst': inst, 'opts': opts, 'choices': choices, 'mode': mode, 'salt': salt}
+    decoy = _lp.draw_decoy(draw, inst)
+    _ret = {'inst': inst, 'opts': opts, 'choices': choices, 'mode': mode, 'salt': salt}
+    if decoy:
+        _ret['decoy'] = decoy
+    return _ret
 
 
 def strategy(tier):
@@ -108,10 +135,58 @@ def exhaustive(tier):
                                            'mode': 'eb'}
 
 
-describe = solverio.describe_case
+def describe(case):
+    if case.get('maps'):
+        m = case['maps']
+        case = dict(case, inst=strategies.embed(case['inst'], m['smap'], m['pmap'], m['lmap'])[0])
+    return solverio.describe_case(case)
+
+
+def run_embedded(case):
+    from .. import refmodel
+    m = case['maps']
+    tiny = case['inst']
+    big, lift = strategies.embed(tiny, m['smap'], m['pmap'], m['lmap'])
+    try:
+        c = _lp.run_lp(dict(case, inst=big), want_long=False)
+    except Violation as v:
+        if _lp.owns_exceptions(v):
+            return Result(False, ['skipped:exception'])
+        raise
+    ob = c.oracle
+    ot = refmodel.Oracle(tiny, True, False)
+    S = [M for M in ot.assignments() if ot.valid(M) and ot.stable(M)]
+    for M in S[:3]:     # the embedding must preserve stability (self-check of the harness)
+        if not (ob.valid(lift(M)) and ob.stable(lift(M))):
+            raise HarnessError('embedding does not preserve stability of %r' % (M,))
+    labels = ['embedded', 'status=' + str(c.short['pulp_status'])]
+    M = _lp.reported_matching(c)
+    if S:
+        if c.short['pulp_status'] != 'Optimal' or M is None:
+            raise Violation('stable_exists_not_optimal', 'embedded instance: %d stable matchings '
+                            'exist (e.g. %r) but status is %r'
+                            % (len(S), lift(S[0]), c.short['pulp_status']))
+        if ob.valid(M):
+            bp = ob.blocking_pairs(M)
+            if bp:
+                raise Violation('reported_unstable', 'printed matching %r is blocked by %r'
+                                % (M, bp[:3]))
+        if c.criteria and c.criteria[0][0] in ('maxsize', 'minsize'):
+            sizes = [ob.size(lift(X)) for X in S]
+            want = max(sizes) if c.criteria[0][0] == 'maxsize' else min(sizes)
+            if c.short['stats'].get('size') != want:
+                raise Violation('stable_size:' + c.criteria[0][0], 'printed size %r, %s size of a '
+                                'stable matching is %d' % (c.short['stats'].get('size'),
+                                                           c.criteria[0][0][:3], want))
+    elif c.short['pulp_status'] == 'Optimal':
+        raise Violation('no_stable_but_optimal', 'embedded instance has no stable valid matching '
+                        'but status is Optimal with matching %r' % (M,))
+    return Result(bool(S) and len(S) < sum(1 for X in ot.assignments() if ot.valid(X)), labels)
 
 
 def run_case(case):
+    if case.get('maps'):
+        return run_embedded(case)
     try:
         c = _lp.run_lp(case, want_long=False)
     except Violation as v:
@@ -119,6 +194,16 @@ def run_case(case):
             return Result(False, ['skipped:' + v.facet.split(':')[0]])
         raise
     o = c.oracle
+    if case.get('large'):
+        M = _lp.reported_matching(c)
+        labels = _lp.base_labels(c, case) + ['large']
+        if c.short['pulp_status'] == 'Optimal' and M is not None and o.valid(M):
+            bp = o.blocking_pairs(M)
+            if bp:
+                raise Violation('reported_unstable', 'printed matching %r is blocked by %r'
+                                % (M, bp[:3]))
+            return Result(any(M), labels)
+        return Result(False, labels)
     valid = _lp.valid_set(c)
     S, unstable_clauses = [], []
     for M in valid:
